@@ -12,6 +12,7 @@ import (
 	aoltypes "github.com/medibloc/panacea-core/v2/x/aol/types"
 
 	"verif/engine/report"
+	"verif/engine/world"
 )
 
 // rawKey is the harness's own CompositeKey: an arbitrary tuple of byte strings.
@@ -512,9 +513,81 @@ func C18(t Tier) int {
 		}
 	}
 
+	// ---- 5. the string form as the chain itself writes it: x/aol ExportGenesis on a chain holding, for two owners, every topic
+	// name of a menu of look-alike names (equal length differing in the last character(s), prefixes / extensions of one another,
+	// shorter-but-lexically-later) with two records and a writer each. Every exported record / writer / topic key must decode
+	// (typed string decoder) to exactly one stored entry with the same payload, the module's own import must reproduce the
+	// stores byte for byte (the comparison of C08, on this state) ----
+	genesisKeys := 0
+	{
+		e := newDomEnv()
+		w := world.New(world.Options{Accounts: []*world.Account{e.A, e.B, e.W, e.F}})
+		names := []string{"a", "b", "ab", "ac", "abc", "b-", "data-2023", "data-2024", "data-2124", "x.y", "x-y", "lab-results", "vitals"}
+		type rec struct{ owner, topic, key string }
+		want := map[string]rec{} // "<owner>/<topic>/<offset>" -> record key bytes
+		for _, o := range []*world.Account{e.A, e.B} {
+			for _, n := range names {
+				msgs := []sdk.Msg{aoltypes.NewMsgCreateTopic(n, "", o.Bech), aoltypes.NewMsgAddWriter(n, "", "", o.Bech, o.Bech)}
+				for i := 0; i < 2; i++ {
+					k := fmt.Sprintf("%s|%s|%d", o.Name, n, i)
+					msgs = append(msgs, aoltypes.NewMsgAddRecordRequest(n, []byte(k), []byte("v"), o.Bech, o.Bech, ""))
+					want[fmt.Sprintf("%s/%s/%d", o.Bech, n, i)] = rec{o.Bech, n, k}
+				}
+				if res := w.Send(world.TxSpec{Msgs: msgs, Signers: []*world.Account{o}, Fee: aolFee, Gas: 3000000}); res.Code != 0 {
+					panic("C18 genesis-form setup: " + res.Log)
+				}
+			}
+		}
+		w.NextBlock()
+		st, _, _, err := w.Export()
+		if err != nil {
+			fail("genesis-form", "genesis-form:export-error", "export failed: %v", err)
+		} else if gs, err := sections(st); err != nil {
+			fail("genesis-form", "genesis-form:export-error", "exported app state is not JSON: %v", err)
+		} else {
+			var ag aoltypes.GenesisState
+			w.App.AppCodec().MustUnmarshalJSON(gs["aol"], &ag)
+			seen := map[string]bool{}
+			for ks, r := range ag.Records {
+				genesisKeys++
+				var ck aoltypes.RecordCompositeKey
+				if err := compkey.DecodeFromString(ks, aoltypes.GenesisKeySeparator, &ck); err != nil {
+					fail("genesis-form", "genesis-form:record-key-undecodable", "exported record key %q does not decode: %v", ks, err)
+					continue
+				}
+				canon := fmt.Sprintf("%s/%s/%d", ck.OwnerAddress.String(), ck.TopicName, ck.Offset)
+				wr, ok := want[canon]
+				if !ok || string(r.Key) != wr.key {
+					fail("genesis-form", "genesis-form:record-under-foreign-key", "exported record key %q carries the record with key bytes %q; the chain stored %q there", ks, r.Key, wr.key)
+					continue
+				}
+				seen[canon] = true
+			}
+			if len(seen) != len(want) {
+				fail("genesis-form", "genesis-form:records-missing", "the export holds %d of the %d stored records under their own keys", len(seen), len(want))
+			}
+			for ks := range ag.Topics {
+				genesisKeys++
+				var tk aoltypes.TopicCompositeKey
+				if err := compkey.DecodeFromString(ks, aoltypes.GenesisKeySeparator, &tk); err != nil {
+					fail("genesis-form", "genesis-form:topic-key-undecodable", "exported topic key %q does not decode: %v", ks, err)
+				}
+			}
+			if len(ag.Topics) != 2*len(names) || len(ag.Writers) != 2*len(names) {
+				fail("genesis-form", "genesis-form:entries-missing", "the export holds %d topics and %d writers, the chain %d and %d", len(ag.Topics), len(ag.Writers), 2*len(names), 2*len(names))
+			}
+			exportImportCheck(w, []*world.Account{e.A, e.B, e.W, e.F}, func(kind, sig, format string, a ...any) {
+				fail("genesis-form", "genesis-form:"+sig, format, a...)
+			})
+		}
+		evals += genesisKeys
+		nontrivial += genesisKeys
+	}
+	run.Coverage["genesis_keys_through_real_export"] = genesisKeys
+
 	run.Coverage["evaluations"] = evals
 	run.Coverage["distinct_nontrivial"] = nontrivial
-	run.Coverage["rule"] = "complete enumeration of (1) all tuples of 0..4 components over a length-byte alphabet with component length <= 2: round trip, injectivity by grouping, prefix-exactness for all pairs decided by counting byte-prefix ranges; (2) every component length 0..255 x 3 fill patterns x 5 second components, and 256+ for rejection; (3) every byte string up to length L over {0,1,2,3,255} offered to Decode; (4) the four typed AOL keys over address lengths 1/20/21/255, all topic names of length <= 2 over the validator charset plus 69/70-byte names, boundary offsets, binary and '/'-separated string round trips, and every typed decoder over a 16-entry component menu for 0..4 components. non-trivial = distinct partial-encoding prefixes + inputs the decoder accepted + typed keys that round-tripped"
+	run.Coverage["rule"] = "complete enumeration of (1) all tuples of 0..4 components over a length-byte alphabet with component length <= 2: round trip, injectivity by grouping, prefix-exactness for all pairs decided by counting byte-prefix ranges; (2) every component length 0..255 x 3 fill patterns x 5 second components, and 256+ for rejection; (3) every byte string up to length L over {0,1,2,3,255} offered to Decode; (4) the four typed AOL keys over address lengths 1/20/21/255, all topic names of length <= 2 over the validator charset plus 69/70-byte names, boundary offsets, binary and '/'-separated string round trips, and every typed decoder over a 16-entry component menu for 0..4 components; (5) the string keys of a real x/aol genesis export of a chain holding 13 look-alike topic names under two owners (every key decodes to the entry stored there; import reproduces the stores). non-trivial = distinct partial-encoding prefixes + inputs the decoder accepted + typed keys that round-tripped"
 	run.Coverage["samples"] = samples
 	run.Coverage["exhaustive"] = true
 	run.Coverage["tuples"] = len(all)
